@@ -75,11 +75,30 @@ def main():
         sys.excepthook = sys.__excepthook__
         mod = importlib.import_module(f"checks.{prop.lower()}")
         ctx = RunContext(prop=prop, tier=args.tier, seed=seed, replay=args.replay)
+        from vlib.common import Violation
+
         if args.replay:
             with open(args.replay) as f:
                 body = json.load(f)
-            rc = mod.replay(ctx, body)
+            try:
+                mod.replay_trace(body["trace"])
+                print("replay: property held")
+                rc = 0
+            except Violation as v:
+                print(f"VIOLATION property={prop} replay={args.replay}\n  key={v.key}\n  what={v.what}")
+                rc = 1
         else:
+            # regression tier: committed replays of confirmed (and repaired) defects run first
+            import glob
+
+            for path in sorted(glob.glob(os.path.join(HERE, "replays", f"{prop}-*.json"))):
+                with open(path) as f:
+                    body = json.load(f)
+                try:
+                    mod.replay_trace(body["trace"])
+                    ctx.regressions_ok += 1
+                except Violation as v:
+                    ctx.regressions.append((path, v))
             rc = mod.run(ctx)
         sys.stdout.flush()
         sys.stderr.flush()
